@@ -240,7 +240,7 @@ def generate(name, expanded_src=None):
                     srcname = e.file
                 within = None
                 if e.impl not in ('-', ''):
-                    blocks = rsx.find_impl_blocks(src, e.impl)
+                    blocks = rsx.find_impl_blocks(src, e.impl, anydepth=bool(e.opts.get('nested')))
                     if not blocks:
                         raise rsx.SliceError("impl block %r not found in %s" % (e.impl, srcname))
                     found = None
